@@ -265,16 +265,21 @@ def sub_tokens(toks, pat, repl, tag, log, where, count=1):
     pos_of = {ti: ci for ci, (ti, _t) in enumerate(code)}
 
     def match_at(ci):
-        """code index after the match starting at ci, or None. The pattern token `__` directly after an opening bracket stands
-           for any balanced token sequence up to the matching closing bracket (the text of a closure, an argument list)."""
+        """code index after the match starting at ci, or None. The pattern token `__` stands for any token sequence up to the
+           closing bracket of the innermost bracket opened by the pattern (the rest of a closure, an argument list, a block)."""
         c = ci
+        opened = []     # token indices (in toks) of the brackets opened by the pattern and not closed yet
         for d, pt in enumerate(ptoks):
-            if pt.kind == "ident" and pt.text == "__" and d > 0 and ptoks[d - 1].kind == "punct" and ptoks[d - 1].text in "([{":
-                cl = match_close(toks, code[c - 1][0])
-                c = pos_of[cl]
+            if pt.kind == "ident" and pt.text == "__" and opened:
+                # skip to the closing bracket of the innermost bracket the pattern has opened
+                c = pos_of[match_close(toks, opened[-1])]
                 continue
             if c >= len(code) or code[c][1].text != pt.text:
                 return None
+            if pt.kind == "punct" and pt.text in ("(", "[", "{"):
+                opened.append(code[c][0])
+            elif pt.kind == "punct" and pt.text in (")", "]", "}") and opened:
+                opened.pop()
             c += 1
         return c
     out_ranges = []
